@@ -815,6 +815,13 @@ class Interp:
     def instantiate(self, cls, args, kwargs):
         if cls.node is None:
             raise Unsupported(f"instantiate {cls!r}")
+        base_names = [b.id for b in cls.node.bases if isinstance(b, ast.Name)]
+        if "NamedTuple" in base_names:
+            fields = [n.target.id for n in cls.node.body if isinstance(n, ast.AnnAssign)]
+            vals = list(args) + [kwargs[f] for f in fields[len(args):]]
+            return tuple(vals)
+        if "TypedDict" in base_names:
+            return dict(kwargs)
         obj = Obj(cls)
         init = cls.lookup("__init__")
         if init is not None:
